@@ -1,0 +1,38 @@
+//go:build verif
+
+// Contracts for the verification machinery in /verif (engine: govc). This file contains
+// only comments; it is compiled only with the build tag "verif" and has no effect on the
+// package otherwise.
+package statedb
+
+// ---------------------------------------------------------------------------
+// Non-unique key encoding (C18, used by C04)
+
+//@ spec special(b byte) bool = b == 0 || b == 1
+//@ spec cnt(s []byte, i mathint) mathint = i <= 0 ? 0 : cnt(s, i-1) + (special(s[i-1]) ? 1 : 0)
+//@ spec encLen(s []byte) mathint = len(s) + cnt(s, len(s))
+//@ spec encAt(o []byte, p mathint, b byte) bool = (b == 0 ==> o[p] == 1 && o[p+1] == 1) && (b == 1 ==> o[p] == 1 && o[p+1] == 2) && (!special(b) ==> o[p] == b)
+//@ spec isEnc(o []byte, off mathint, s []byte) bool = forall k int :: 0 <= k && k < len(s) ==> encAt(o, off + k + cnt(s, k), s[k])
+
+//@ func lemmaCntMono
+//@   property C18 C04
+//@   requires 0 <= j && j <= i
+//@   ensures cnt(s, j) <= cnt(s, i) && cnt(s, i) - cnt(s, j) <= i - j
+//@   loop 1 invariant j <= x && x <= i && cnt(s, j) <= cnt(s, x) && cnt(s, x) - cnt(s, j) <= x - j
+
+//@ func appendEncode returns (n, out)
+//@   property C18 C04
+//@   use lemmaCntMono
+//@   requires len(src) == 0 || arr(dst) != arr(src)
+//@   ensures @len n == encLen(src)
+//@   ensures @outlen len(out) == len(dst) + n
+//@   ensures @srcframe arrOf(src) == old(arrOf(src))
+//@   ensures @prefix forall k int :: 0 <= k && k < len(dst) ==> out[k] == old(dst[k])
+//@   ensures @enc isEnc(out, len(dst), src)
+//@   loop 1 invariant 0 <= $i && $i <= len(src)
+//@   loop 1 invariant len(src) == 0 || arr(dst) != arr(src)
+//@   loop 1 invariant arrOf(src) == old(arrOf(src))
+//@   loop 1 invariant n == $i + cnt(src, $i) && cnt(src, $i) >= 0
+//@   loop 1 invariant len(dst) == len(old(dst)) + n
+//@   loop 1 invariant forall k int :: 0 <= k && k < len(old(dst)) ==> dst[k] == old(dst[k])
+//@   loop 1 invariant forall k int :: 0 <= k && k < $i ==> encAt(dst, len(old(dst)) + k + cnt(src, k), src[k]) && 0 <= cnt(src, k) && k + cnt(src, k) + (special(src[k]) ? 2 : 1) <= $i + cnt(src, $i)
